@@ -4425,7 +4425,9 @@ def unify_chunks(*args, **kwargs):
             chunks = tuple(
                 (
                     chunkss[j]
-                    if a.shape[n] > 1
+                    # only an axis that is really broadcast is collapsed; an axis of
+                    # length <= 1 may be split into several (empty) chunks itself
+                    if a.shape[n] > 1 or a.shape[n] == sum(chunkss[j])
                     else a.shape[n] if not np.isnan(sum(chunkss[j])) else None
                 )
                 for n, j in enumerate(i)
